@@ -702,6 +702,7 @@ impl Driver {
     pub fn observe(&mut self) -> Value {
         let quiescent = self.table.is_empty();
         let mut cells = Vec::new();
+        let mut hidden: Vec<Value> = Vec::new();
         for ty in 1..=self.ntypes() {
             for dy in 0..self.ndyns() {
                 let id = self.rid(ty, dy);
@@ -759,6 +760,17 @@ impl Driver {
                             self.abort = Some(format!("value under ({},{}) is not readable", ty, dy));
                         }
                     }
+                } else if quiescent {
+                    // no guard is live, so the `&mut World` view is available too: it is the map's
+                    // content proper.  A value that only the shared-reference view hides is reported
+                    // as stored (the calls that cannot see it will show up as outcomes)
+                    if let Some(s) = self.wm().get_mut_raw(id).and_then(|r| read_dyn(&*r)) {
+                        c["here"] = json!(true);
+                        c["tid"] = json!(self.abs(s.0));
+                        c["payload"] = json!(s.1);
+                        c["ident"] = json!(s.2);
+                        hidden.push(json!([ty, dy]));
+                    }
                 }
                 cells.push(c);
             }
@@ -771,7 +783,7 @@ impl Driver {
                 json!({"g":g,"ty":e.ty,"dy":e.dy,"kind":e.kind.to_string(),"payload":r.1,"ident":r.2})
             })
             .collect();
-        json!({"cells": cells, "guards": guards, "drops": drops()})
+        json!({"cells": cells, "guards": guards, "drops": drops(), "hidden_from_shared_view": hidden})
     }
 
     /// Releases every live guard one by one as ordinary logged `drop` calls (each followed by
